@@ -187,11 +187,16 @@ def run(ctx, prop):
 
 def replay(ctx, prop, obj):
     sf = ctx.path("sched.ndjson")
+    sched = obj["schedule"]
+    bursty = any(s[0] in ("releaseall", "eofall") for s in sched.get("steps", []))
     with open(sf, "w") as f:
-        f.write(json.dumps(obj["schedule"]) + "\n")
+        # a burst depends on how the Go runtime interleaves the finishing goroutines: repeat it
+        for k in range(300 if bursty else 1):
+            f.write(json.dumps(dict(sched, id="%s#%d" % (sched.get("id"), k))) + "\n")
     tf = ctx.path("trace.ndjson")
     ctx.run_harness(["life", sf, tf])
-    print(open(tf).read())
+    if not bursty:
+        print(open(tf).read())
     r = ctx.tlc("Trace_Lifecycle", env={"TRACE_FILE": tf})
     hit = False
     for line in r["out"].splitlines():
